@@ -25,6 +25,7 @@ mod c12;
 mod c19;
 mod c14;
 mod c20;
+mod c10;
 
 pub struct Budget {
     pub end: Instant,
@@ -54,6 +55,7 @@ fn run_one(pid: &str, input: &Value) -> Option<Value> {
         "C19" => c19::run(&input),
         "C14" => c14::run(&input),
         "C20" => c20::run(&input),
+        "C10" => c10::run(&input),
         _ => None,
     });
     match r {
@@ -87,6 +89,7 @@ fn gen(pid: &str, r: &mut rng::Rng) -> Option<Value> {
         "C19" => Some(c19::gen(r)),
         "C14" => Some(c14::gen(r)),
         "C20" => Some(c20::gen(r)),
+        "C10" => Some(c10::gen(r)),
         _ => None,
     }
 }
